@@ -2,13 +2,16 @@
 """Self-test of the checker: apply each mutant (a textual edit of /repo), run the property's
 check, require exit 1 with a VIOLATION whose obligation key matches, then restore /repo.
 
-usage: run.py [--only REGEX] [--with-tests] [--prop Cxx]
+usage: run.py [--only REGEX] [--with-tests] [--prop Cxx] [--tier quick|thorough] [--jobs N]
 Never part of quick/thorough. /repo is always restored with `git checkout -- .`.
+With --jobs N the mutants are spread over N scratch worktrees of /repo's HEAD under /tmp (AQV_REPO points the checker at
+them; each has its own cargo target directory under /verif/.cache/target); /repo itself is not touched and the
+worktrees and their build output are removed at the end.
 """
 import argparse, json, os, re, subprocess, sys, time
 HERE = os.path.dirname(os.path.abspath(__file__))
 sys.path.insert(0, HERE)
-REPO = "/repo"
+REPO = os.environ.get("AQV_REPO", "/repo")
 CHECK = os.path.join(os.path.dirname(HERE), "aqv", "check.py")
 
 
@@ -27,8 +30,15 @@ def main():
     ap.add_argument("--with-tests", action="store_true")
     ap.add_argument("--show", action="store_true")
     ap.add_argument("--tier", default="quick", choices=["quick", "thorough"])
+    ap.add_argument("--jobs", type=int, default=1)
+    ap.add_argument("--ids", help="comma separated mutant ids (used by --jobs workers)")
     a = ap.parse_args()
     from mutants import MUTANTS
+    if a.jobs > 1:
+        return parallel(a, MUTANTS)
+    if a.ids:
+        ids = set(a.ids.split(","))
+        MUTANTS = [m for m in MUTANTS if m["id"] in ids]
     st = sh(["git", "-C", REPO, "status", "--porcelain"]).stdout.strip()
     if st:
         print("refusing: /repo has local changes:\n" + st)
@@ -84,6 +94,56 @@ def main():
     bad = [r for r in res if any(not str(v).startswith("caught:") for v in r[1].values())]
     print("%d mutants, %d not caught by the expected key" % (len(res), len(bad)))
     return 1 if bad else 0
+
+
+def parallel(a, mutants):
+    import hashlib, shutil
+    sel = [m for m in mutants if (not a.only or re.search(a.only, m["id"])) and (not a.prop or a.prop in m["props"])]
+    n = min(a.jobs, len(sel)) or 1
+    dirs = []
+    procs = []
+    try:
+        for i in range(n):
+            d = "/tmp/aqv_st_%d" % i
+            sh(["git", "-C", "/repo", "worktree", "remove", "--force", d])
+            r = sh(["git", "-C", "/repo", "worktree", "add", "--detach", d, "HEAD"])
+            if r.returncode != 0:
+                print(r.stdout)
+                return 2
+            dirs.append(d)
+            # warm start: dependencies compiled for /repo are reusable (registry crates do not depend on the workspace path)
+            suffix = "-" + hashlib.sha256(d.encode()).hexdigest()[:8]
+            for cs in (["default+uring", "nometrics+uring"] if a.tier == "thorough" else ["default+uring"]):
+                src, dst = "/verif/.cache/target/" + cs, "/verif/.cache/target/" + cs + suffix
+                if os.path.isdir(src) and not os.path.isdir(dst):
+                    sh(["cp", "-a", "--reflink=auto", src, dst])
+            ids = ",".join(m["id"] for m in sel[i::n])
+            cmd = [sys.executable, os.path.abspath(__file__), "--ids", ids, "--tier", a.tier] + (["--with-tests"] if a.with_tests else [])
+            procs.append(subprocess.Popen(cmd, env=dict(os.environ, AQV_REPO=d), stdout=subprocess.PIPE, stderr=subprocess.STDOUT, text=True))
+        bad = 0
+        total = 0
+        for pr in procs:
+            out = pr.communicate()[0]
+            for line in out.splitlines():
+                if re.match(r"^\d+ mutants, ", line):
+                    m = re.match(r"^(\d+) mutants, (\d+) not caught", line)
+                    total += int(m.group(1))
+                    bad += int(m.group(2))
+                else:
+                    print(line, flush=True)
+        print("%d mutants, %d not caught by the expected key" % (total, bad))
+        return 1 if bad or total != len(sel) else 0
+    finally:
+        for d in dirs:
+            sh(["git", "-C", "/repo", "worktree", "remove", "--force", d])
+            suffix = "-" + hashlib.sha256(d.encode()).hexdigest()[:8]
+            for cs in os.listdir("/verif/.cache/target") if os.path.isdir("/verif/.cache/target") else []:
+                if cs.endswith(suffix):
+                    shutil.rmtree(os.path.join("/verif/.cache/target", cs), ignore_errors=True)
+            try:
+                os.remove("/verif/.cache/lock" + suffix)
+            except OSError:
+                pass
 
 
 if __name__ == "__main__":
